@@ -177,6 +177,47 @@ func genCacheHistory(rng *rand.Rand, id string, maxReqs int) *Session {
 	return s
 }
 
+// GenKeySweep: the query cache is keyed by the exact query text. Documents
+// that differ only in layout - or that LOOK alike once layout is folded: white
+// space inside a string literal, a line break that ends a comment - are
+// different texts: each is a miss the first time (and parsed and validated on
+// its own) and a hit the second time. One sequential session per cache kind;
+// the LRU is large enough to hold every text.
+func GenKeySweep() []*Session {
+	texts := []struct{ q, kind string }{
+		{"{ name }", "valid"},
+		{"{ name } ", "valid"},
+		{" { name }", "valid"},
+		{"{\n  name\n}", "valid"},
+		{"{\tname }", "valid"},
+		{"{ name, }", "valid"},
+		{"query Q {\n  name # the display name\n}", "valid"},
+		{"query Q { name # the display name }", "parse-error"}, // the comment swallows the brace
+		{"mutation { setName(v: \"a b\") }", "valid"},
+		{"mutation { setName(v: \"a  b\") }", "valid"},
+		{"{ user { id } nosuch }", "unknown-field"},
+		{"{ user { id }\n# nosuch }\n}", "valid"},
+	}
+	var out []*Session
+	for ci, cc := range []Config{{CK: "map"}, {CK: "lru", CN: 16}, {CK: "lru", CN: 16, Tr: "post"}} {
+		for half := 0; half < 2; half++ {
+			c := Config{ID: fmt.Sprintf("keys%d-%d", ci, half), Rules0: []string{"FOCT"}, CK: cc.CK, CN: cc.CN, Tr: cc.Tr, Exts: []HookSet{HookSetOf(0b100100)}}
+			if c.Tr == "" {
+				c.Tr = "direct"
+			}
+			s := &Session{Cfg: c}
+			part := texts[half*6 : half*6+6]
+			for round := 0; round < 2; round++ {
+				for _, t := range part {
+					s.Steps = append(s.Steps, []*Request{{Kind: t.kind, Query: t.q, Gates: []Gate{}, Vars: map[string]any{}}})
+				}
+			}
+			out = append(out, s)
+		}
+	}
+	return out
+}
+
 // otherOpName is an operation name different from the one the document was
 // first sent with: the name of its first named operation if there is one
 // (then the operation is found), else a name that does not exist.
